@@ -513,10 +513,10 @@ func handleZINTERSTORE(params internal.HandlerFuncParams) ([]byte, error) {
 	keyExists := params.KeysExist(params.Context, k.ReadKeys)
 	destination := k.WriteKeys[0]
 
-	// Remove the destination keys from the command before parsing it
-	cmd := slices.DeleteFunc(params.Command, func(s string) bool {
+	// Remove the destination keys from the command's arguments (never the command word) before parsing it
+	cmd := append([]string{params.Command[0]}, slices.DeleteFunc(params.Command[1:], func(s string) bool {
 		return s == destination
-	})
+	})...)
 
 	keys, weights, aggregate, _, err := extractKeysWeightsAggregateWithScores(cmd)
 	if err != nil {
@@ -1324,10 +1324,10 @@ func handleZUNIONSTORE(params internal.HandlerFuncParams) ([]byte, error) {
 
 	destination := k.WriteKeys[0]
 
-	// Remove destination key from list of keys
-	params.Command = slices.DeleteFunc(params.Command, func(s string) bool {
+	// Remove destination key from list of keys (the command word is not a key)
+	params.Command = append([]string{params.Command[0]}, slices.DeleteFunc(params.Command[1:], func(s string) bool {
 		return s == destination
-	})
+	})...)
 
 	keys, weights, aggregate, _, err := extractKeysWeightsAggregateWithScores(params.Command)
 	if err != nil {
